@@ -47,6 +47,12 @@ def generate(rng, tier):
         spec["objects"] = [o]
         spec["ops"] = []
         spec["huge"] = True
+    if rng.random() < 0.012:
+        # more than 1024 (sometimes more than 2048) terms of one kind in one object
+        nat = rng.choice([1100, 1500, 2300])
+        spec["objects"] = [machine.gen_long_chain(rng, spec["cfg"], nat, cell=spec["objects"][0].get("cell"))]
+        spec["ops"] = []
+        spec["huge"] = "chain"
     n = len(spec["objects"])
     tail = []
     for _ in range(rng.randint(1, 4)):
@@ -55,7 +61,10 @@ def generate(rng, tier):
         else:
             tail.append({"op": "delete", "obj": rng.randrange(n), "picks": [rng.random() for _ in range(rng.randint(1, 5))],
                          "container": rng.choice(["list", "ndarray", "tuple", "np.int64", "own_view", "own_view"]), "many": big and rng.random() < 0.6})
-    if spec.get("huge"):
+    if spec.get("huge") == "chain":
+        tail = [{"op": "delete", "obj": 0, "picks": [rng.uniform(0.0, 1.0) if rng.random() < 0.4 else rng.uniform(0.85, 1.0) for _ in range(rng.randint(1, 4))],
+                 "container": rng.choice(["list", "ndarray"])}]
+    elif spec.get("huge"):
         tail = [{"op": "delete", "obj": 0, "picks": [rng.random() for _ in range(rng.randint(15, 40))], "container": rng.choice(["list", "ndarray"])}]
     spec["ops"] += tail
     spec["fanout_seed"] = rng.getrandbits(20)
